@@ -4,6 +4,7 @@ import (
 	"fmt"
 	"go/token"
 	"go/types"
+	"sort"
 	"strings"
 
 	"golang.org/x/tools/go/ssa"
@@ -14,7 +15,7 @@ import (
 func init() {
 	Register(&Property{
 		ID: "C14",
-		Explanation: "Decides lock discipline and sharing shapes: (R14.1) every field that some method writes while holding a mutex of its object is accessed everywhere else under that mutex (exclusively for writes), or from a function all of whose callers hold it, or on an object allocated in the same function; no method re-acquires a lock of its receiver that it already holds; (R14.2) no registry getter that can run on a request goroutine writes a registry field without a lock, unless the getter is already called in the sequential set-up of the first server; (R14.3) a function literal run by go/errgroup.Go writes captured state only through an index that is private to its loop iteration; (R14.4) the check group's result is read only after doneCh and written only by the consumer; (R14.5) a visited set is created only inside package graph and lives only in a context value; (R14.6) an object handed to a concurrently running sub-check is not written afterwards; (R14.7) a visited set is installed only below a single check/expand, never by code that fans out several checks; (R14.8) request bodies are decoded into fresh values; (R14.9) the request-serving singletons (engines, handlers, mappers, persister, traverser) hold no caching/coalescing field and no container written after construction. " +
+		Explanation: "Decides lock discipline and sharing shapes: (R14.1) every field that some method writes while holding a mutex of its object is accessed everywhere else under that mutex (exclusively for writes), or from a function all of whose callers hold it, or on an object allocated in the same function; no method re-acquires a lock of its receiver that it already holds; (R14.2) no registry getter that can run on a request goroutine writes a registry field without a lock, unless the getter is already called in the sequential set-up of the first server; (R14.3) a function literal run by go/errgroup.Go writes captured state only through an index that is private to its loop iteration; (R14.4) the check group's result is read only after doneCh and written only by the consumer; (R14.5) a visited set is created only inside package graph and lives only in a context value; (R14.6) an object handed to a concurrently running sub-check is not written afterwards; (R14.7) a visited set is installed only below a single check/expand, never by code that fans out several checks; (R14.8) request bodies are decoded into fresh values; (R14.11) the engines never write into, or reorder in place, the shared namespace configuration; (R14.10) every Lock/RLock in keto is released on every path to a return (deferred, or an unlock every path passes); (R14.9) the request-serving singletons (engines, handlers, mappers, persister, traverser) hold no caching/coalescing field and no container written after construction. " +
 			"Not decided: absence of data races in general, result equality under concurrency.",
 		Assumptions: []string{"mutex-protected fields are only touched through the struct's own package (checked: the accesses found are all in the declaring package)"},
 		Run:         runC14,
@@ -59,6 +60,8 @@ func runC14(c *Ctx) {
 	r147(c)
 	r085(c, "R14.8", []string{"internal/check", "internal/relationtuple", "internal/expand"})
 	singletonState(c, "R14.9")
+	lockPairing(c, "R14.10", allKetoRels(c.P))
+	configReadOnly(c, "R14.11")
 }
 
 // callOnlyReach: functions reachable through calls (not mere references).
@@ -590,4 +593,178 @@ func visitedInstallScope(c *Ctx, rule string) {
 	if n < 4 {
 		r.Undecide(rule, "", "visited-set installer call sites", "", fmt.Sprintf("%d found (floor 4)", n))
 	}
+}
+
+// ---- lock pairing: every lock is released on every exit (R14.10 / R15.6 / R19.4) ---------------------
+
+func lockPairing(c *Ctx, rule string, rels []string) {
+	p, r := c.P, c.R
+	n := 0
+	for _, f := range core.LockPairing(p, rels) {
+		n++
+		name := core.FuncName(f.Fn)
+		construct := "release of " + f.Mutex
+		if f.OK {
+			r.Discharge(rule, name, construct, p.Pos(f.Pos.Pos()), f.Detail)
+		} else {
+			r.Violate(rule, name, construct, p.Pos(f.Pos.Pos()), f.Detail)
+		}
+	}
+	if n < 3 {
+		r.Undecide(rule, "", "lock acquisitions", "", fmt.Sprintf("%d found (floor 3)", n))
+	}
+}
+
+func allKetoRels(p *core.Program) []string {
+	var out []string
+	for _, pk := range p.KetoPackages() {
+		rel := core.RelPath(pk.PkgPath)
+		if strings.HasPrefix(rel, "proto") || strings.HasPrefix(rel, "internal/httpclient") {
+			continue
+		}
+		out = append(out, rel)
+	}
+	sort.Strings(out)
+	return out
+}
+
+// ---- R14.11 the namespace configuration is read-only on request paths --------------------------------
+
+// configReadOnly: the parsed namespaces (internal/namespace and .../ast values
+// handed out by the namespace manager) are shared by every request. The check
+// and expand engines only read them: no store through a pointer into such a
+// value, no in-place sort/reverse of one of its slices (a copied slice header
+// still points at the shared elements).
+func configReadOnly(c *Ctx, rule string) {
+	p, r := c.P, c.R
+	isCfgType := func(t types.Type) bool {
+		n := core.NamedOf(t)
+		if n == nil || n.Obj().Pkg() == nil {
+			return false
+		}
+		pth := n.Obj().Pkg().Path()
+		return pth == core.KetoMod+"/internal/namespace" || pth == core.KetoMod+"/internal/namespace/ast"
+	}
+	// inCfg(addr): the address points into a shared configuration value.
+	// aliasCfg(v): the value (pointer, slice, interface) refers to such memory.
+	var inCfg, aliasCfg func(v ssa.Value, d int) bool
+	inCfg = func(v ssa.Value, d int) bool {
+		if v == nil || d > 8 {
+			return false
+		}
+		switch x := v.(type) {
+		case *ssa.FieldAddr:
+			if isCfgType(x.X.Type()) {
+				if _, fresh := core.ValueOrigin(x.X).(*ssa.Alloc); !fresh {
+					return true
+				}
+			}
+			return aliasCfg(x.X, d+1)
+		case *ssa.IndexAddr:
+			return aliasCfg(x.X, d+1)
+		}
+		return false // a local cell is not configuration memory, whatever it holds
+	}
+	aliasCfg = func(v ssa.Value, d int) bool {
+		if v == nil || d > 8 {
+			return false
+		}
+		switch x := v.(type) {
+		case *ssa.FieldAddr, *ssa.IndexAddr:
+			return inCfg(v, d+1)
+		case *ssa.UnOp:
+			if al, ok := x.X.(*ssa.Alloc); ok {
+				// a load of a local variable: it aliases what was stored into it (pointers/slices only)
+				switch x.Type().Underlying().(type) {
+				case *types.Slice, *types.Pointer, *types.Map, *types.Interface:
+					for _, st := range core.CellStores(al) {
+						if aliasCfg(st.Val, d+1) {
+							return true
+						}
+					}
+				}
+				return false
+			}
+			if fv, ok := x.X.(*ssa.FreeVar); ok {
+				if al, ok := core.FreeVarBinding(fv).(*ssa.Alloc); ok {
+					switch x.Type().Underlying().(type) {
+					case *types.Slice, *types.Pointer, *types.Map, *types.Interface:
+						for _, st := range core.CellStores(al) {
+							if aliasCfg(st.Val, d+1) {
+								return true
+							}
+						}
+					}
+				}
+				return false
+			}
+			// a load through an address inside the configuration yields a slice/pointer into it
+			switch x.Type().Underlying().(type) {
+			case *types.Slice, *types.Pointer, *types.Map, *types.Interface:
+				return inCfg(x.X, d+1)
+			}
+			return false
+		case *ssa.Slice:
+			return aliasCfg(x.X, d+1)
+		case *ssa.Phi:
+			for _, e := range x.Edges {
+				if aliasCfg(e, d+1) {
+					return true
+				}
+			}
+		case *ssa.MakeInterface:
+			return aliasCfg(x.X, d+1)
+		case *ssa.ChangeType:
+			return aliasCfg(x.X, d+1)
+		case *ssa.Parameter:
+			if pt, ok := x.Type().Underlying().(*types.Pointer); ok && isCfgType(pt.Elem()) {
+				return true
+			}
+		}
+		return false
+	}
+	rooted := func(v ssa.Value, _ int) bool { return inCfg(v, 0) || aliasCfg(v, 0) }
+	n := 0
+	var bad []string
+	for _, rel := range []string{"internal/check", "internal/check/checkgroup", "internal/expand"} {
+		for _, fn := range p.KetoFuncs(rel) {
+			core.Instrs(fn, func(_ *ssa.BasicBlock, _ int, ins ssa.Instruction) {
+				switch x := ins.(type) {
+				case *ssa.FieldAddr:
+					if isCfgType(x.X.Type()) {
+						n++
+					}
+				case *ssa.Store:
+					if inCfg(x.Addr, 0) {
+						bad = append(bad, fmt.Sprintf("%s: store into the shared namespace configuration in %s", p.Pos(x.Pos()), core.FuncName(fn)))
+					}
+				case *ssa.MapUpdate:
+					if rooted(x.Map, 0) {
+						bad = append(bad, fmt.Sprintf("%s: map update in the shared namespace configuration in %s", p.Pos(x.Pos()), core.FuncName(fn)))
+					}
+				case ssa.CallInstruction:
+					obj := core.CalleeObj(x.Common())
+					if obj == nil || obj.Pkg() == nil {
+						return
+					}
+					if pth := obj.Pkg().Path(); pth == "sort" || pth == "slices" {
+						switch obj.Name() {
+						case "Slice", "SliceStable", "Sort", "Stable", "SortFunc", "SortStableFunc", "Reverse", "Strings", "Ints":
+							for _, a := range x.Common().Args {
+								if rooted(a, 0) {
+									bad = append(bad, fmt.Sprintf("%s: %s.%s reorders a slice of the shared namespace configuration in place in %s (a copied slice header shares its elements)", p.Pos(x.Pos()), pth, obj.Name(), core.FuncName(fn)))
+								}
+							}
+						}
+					}
+				}
+			})
+		}
+	}
+	if n < 5 {
+		r.Undecide(rule, "", "reads of the namespace configuration in the engines", "", fmt.Sprintf("%d found (floor 5)", n))
+		return
+	}
+	r.Check(len(bad) == 0, rule, "internal/check, internal/expand", "namespace configuration is only read", "",
+		fmt.Sprintf("%d field accesses of namespace/AST values, none of them a write or an in-place reorder", n), strings.Join(dedupe(bad), "; ")+": concurrent requests read this memory while it changes, and the configuration stays changed for every later request")
 }
